@@ -184,7 +184,7 @@ PROPS = {
  },
  'C14': {
   'uses_generated': True,
-  'rule': 'archives written by the harness (1..12 entries, runs, shared contents, root-only to two leaf levels, gzip/none internals, every tile type, E7 header coordinates over the whole int32 range incl. '
+  'rule': 'archives written by the harness (1..12 entries, runs, shared contents, root-only to two leaf levels, gzip/none internals, sections back to back or (35% of edit cases) separated by padding as the spec allows, every tile type, E7 header coordinates over the whole int32 range incl. '
           'the boundaries and the values a truncating conversion gets wrong) through the real Edit with header JSON (all known and several unknown type/compression names, zooms -4..549, coordinates as '
           'decimal literals with 0..12 decimals over the whole E7 range, wrong-length bounds/center), new metadata of varying length (keys out of order, HTML characters, nested values, non-objects) or both; '
           'show --header-json fed back to edit; a metadata edit (every other one SHRINKING the section) under every output-size limit 0..size+2 (RLIMIT_FSIZE in child processes) and SIGKILL at sampled instants of both edit paths. '
